@@ -80,8 +80,9 @@ func (batch *Batch) close() (err error) {
 	batch.conn = nil
 	batch.lock = nil
 
+	var discardErr error
 	if batch.msgs != nil {
-		batch.msgs.discard()
+		discardErr = batch.msgs.discard()
 	}
 
 	if batch.msgs != nil && batch.msgs.decompressed != nil {
@@ -99,7 +100,14 @@ func (batch *Batch) close() (err error) {
 		conn.offset = batch.offset
 		conn.mutex.Unlock()
 
-		if err != nil {
+		if discardErr != nil {
+			// The rest of the response could not be consumed, the connection
+			// cannot be reused because the next response would be misaligned.
+			conn.Close()
+			if err == nil {
+				err = dontExpectEOF(discardErr)
+			}
+		} else if err != nil {
 			var kafkaError Error
 			if !errors.As(err, &kafkaError) && !errors.Is(err, io.ErrShortBuffer) {
 				conn.Close()
